@@ -49,6 +49,10 @@ class Check(BaseCheck):
             if flat:
                 a[2] = 0.0
             f = v @ a + rng.normal() + (0.0 if rng.random() < 0.5 else 0.05 * np.sin(v @ rng.normal(size=3)))
+            if rng.random() < 0.3:            # far from affine: a narrow high bump and a broad low one (several local extrema)
+                ext = np.ptp(v, axis=0).max()
+                p1, p2 = v[int(rng.integers(0, len(v)))], v[int(rng.integers(0, len(v)))]
+                f = 2.0 * np.exp(-np.sum((v - p1) ** 2, axis=1) / (0.05 * ext ** 2)) + np.exp(-np.sum((v - p2) ** 2, axis=1) / (0.6 * ext ** 2)) + 0.01 * (v @ a)
             affine = bool(np.allclose(f, v @ a + (f[0] - v[0] @ a)))
             fs = float(rng.choice([1.0, 1.0, 1e-9, 1e6]))       # the normalised gradient does not depend on the magnitude of f
             yield dict(kind="tri", v=v, t=t, f=fs * f, a=a, affine=affine, flat=flat, name=c["name"], fscale=fs, pres=c.get("pres"), vdtype=c.get("vdtype"))
